@@ -184,6 +184,16 @@ fn uint_forms<const N: usize>(cx: &mut Cx, iters: usize) {
         cx.call(e("uint.ct_lt", "lt"), || oc(a.ct_lt(&b)));
         cx.call(e("uint.ct_gt", "gt"), || oc(a.ct_gt(&b)));
         cx.call(e("uint.op_eq", "eq"), || ob(a == b));
+        {
+            let mut ov = bv.clone(); ov[0] |= 1;
+            let ou = odd::<N>(&ov).unwrap();
+            let eo = |form: &str, q: &str| ec(form, q, bits, bits, false, &av, &ov);
+            cx.call(eo("uint.eq.Odd<Uint>", "eq"), || ob(a == ou));
+            cx.call(eo("uint.partial_cmp.Odd<Uint>", "cmp"), || opo(a.partial_cmp(&ou)));
+            cx.call(eo("uint.gt.Odd<Uint>", "gt"), || ob(a > ou));
+            let es = |form: &str, q: &str| ec(form, q, bits, bits, false, &ov, &ov);
+            cx.call(es("uint.eq.Odd<Uint>", "eq"), || ob(ou.get() == ou));
+        }
         cx.call(e("uint.op_ne", "ne"), || ob(a != b));
         cx.call(e("uint.op_lt", "lt"), || ob(a < b));
         cx.call(e("uint.op_le", "le"), || ob(a <= b));
@@ -382,6 +392,22 @@ fn boxed_forms(cx: &mut Cx, iters: usize, maxl: usize) {
         cx.call(e("boxed.Ord.cmp", "cmp"), || oo(Ord::cmp(&a, &b)));
         cx.call(e("boxed.partial_cmp", "cmp"), || opo(a.partial_cmp(&b)));
         cx.call(e("boxed.cmp_vartime", "cmp").s("pm", "any"), || oo(a.cmp_vartime(&b)));
+        {
+            // comparison of a plain integer with a wrapped one (PartialEq / PartialOrd<Odd<BoxedUint>> for BoxedUint): the
+            // right operand is made odd; the same value at a different precision must still compare equal
+            let mut ov = bv.clone(); ov[0] |= 1;
+            let ob_ = oddb(&ov).unwrap();
+            let eo = |form: &str, q: &str| ec(form, q, ab, bb, false, &av, &ov);
+            cx.call(eo("boxed.eq.Odd<BoxedUint>", "eq"), || ob(a == ob_));
+            cx.call(eo("boxed.partial_cmp.Odd<BoxedUint>", "cmp"), || opo(a.partial_cmp(&ob_)));
+            cx.call(eo("boxed.lt.Odd<BoxedUint>", "lt"), || ob(a < ob_));
+            if it % 4 == 0 {
+                let same = bx(&fit(trim(ov.clone()), nl.max(trim(ov.clone()).len())));          // the odd value itself, at the LEFT operand's precision
+                let es = |form: &str, q: &str| ec(form, q, 64 * same.nlimbs(), bb, false, &wb(&same), &ov);
+                cx.call(es("boxed.eq.Odd<BoxedUint>", "eq"), || ob(same == ob_));
+                cx.call(es("boxed.partial_cmp.Odd<BoxedUint>", "cmp"), || opo(same.partial_cmp(&ob_)));
+            }
+        }
         if it % 3 == 0 {
             let (wa, wb_) = (Wrapping(a.clone()), Wrapping(b.clone()));
             cx.call(e("boxed.wrapping.op_eq", "eq"), || ob(wa == wb_));
